@@ -16,7 +16,7 @@ from .explore import EX, Unsupported, Infeasible
 
 RNE = z3.RNE()
 FSORT = {'f4': z3.Float32(), 'f8': z3.Float64()}
-MODE = {'numba': False}
+MODE = {'numba': False, 'exact': False}      # exact: float targets of int->float casts stay in the exact domain
 REALS = {'div': False}       # exact domain: allow symbolic/symbolic division as rational division (reals-for-floats assumption)      # numba typing mode: python int/float literals are int64/float64 (strong)
 
 
@@ -168,15 +168,21 @@ def xbin(op, a, b):
             if not REALS['div']:
                 raise Unsupported('exact domain: division by a symbolic value')
             # reals-for-floats mode (declared assumption of the harness): rational division; a zero divisor raises in numba
-            EX.obligations.append(('no-zero-division', z3.Or(B.tag != 0, B.val != 0)))
-            tag = z3.simplify(z3.If(anynan, 1, z3.If(fin, 0, 1)))
-            return Sym(X(tag, z3.If(z3.And(tag == 0, B.val != 0), A.val / B.val, 0)), 'x4')
+            # kernels (obligation) and gives NaN / +-inf in vectorised numpy code
+            if MODE['numba']:
+                EX.obligations.append(('no-zero-division', z3.Or(B.tag != 0, B.val != 0)))
+            bz = z3.And(B.tag == 0, B.val == 0)
+            tag = z3.simplify(z3.If(anynan, 1, z3.If(z3.Not(fin), 1, z3.If(bz, z3.If(A.val == 0, 1, z3.If(A.val > 0, 2, 3)), 0))))
+            return Sym(X(tag, z3.If(tag == 0, A.val / B.val, 0)), 'x4')
         fb = float(b)
         if fb == 0 or fb != fb or abs(fb) == float('inf'):
             raise Unsupported('exact domain: division by %r' % fb)
         m, _ = np.frexp(fb)
         if abs(m) != 0.5:
-            raise Unsupported('exact domain: division by non power of two %r' % fb)
+            if not REALS['div']:
+                raise Unsupported('exact domain: division by non power of two %r' % fb)
+            from fractions import Fraction
+            return Sym(X(A.tag, z3.simplify(z3.If(A.tag == 0, A.val / z3.RealVal(str(Fraction(fb))), 0))), 'x4')
         return xbin('mul', a, 1.0 / fb)
     if op in ('lt', 'le', 'gt', 'ge', 'eq', 'ne'):
         ka, kb = _xkey(A), _xkey(B)
@@ -346,10 +352,14 @@ def cast(x, k):
         f = z3.fpToSBV if k[0] == 'i' else z3.fpToUBV
         return Sym(f(z3.RTZ(), x.t, z3.BitVecSort(bits(k))), k)
     if x.k == 'b':
+        if k in FSORT and MODE['exact']:
+            return Sym(xlift(x), 'x4')
         if k in FSORT:
             return Sym(z3.If(x.t, z3.FPVal(1.0, FSORT[k]), z3.FPVal(0.0, FSORT[k])), k)
         return Sym(z3.If(x.t, z3.BitVecVal(1, bits(k)), z3.BitVecVal(0, bits(k))), k)
     if k in FSORT:
+        if MODE['exact']:
+            return Sym(xlift(x), 'x4')
         return Sym(z3.fpSignedToFP(RNE, x.t, FSORT[k]) if x.k[0] == 'i' else z3.fpUnsignedToFP(RNE, x.t, FSORT[k]), k)
     if k == 'b':
         return Sym(x.t != 0, 'b')
@@ -534,6 +544,26 @@ def isfinite(a):
     return mkbool(z3.Not(z3.Or(z3.fpIsInf(a.t), z3.fpIsNaN(a.t)))) if a.k in FSORT else True
 
 
+_EXP = {}
+
+
+def sexp(a):
+    """exp: concrete -> numpy; exact domain -> uninterpreted function over the reals with the axiom exp(x) > 0 (recorded as a
+    path assumption); NaN -> NaN"""
+    if not isinstance(a, Sym):
+        with np.errstate(all='ignore'):
+            return np.exp(a)
+    if a.k != 'x4':
+        raise Unsupported('exp on kind %s' % a.k)
+    if 'f' not in _EXP:
+        _EXP['f'] = z3.Function('exp_uf', z3.RealSort(), z3.RealSort())
+    e = _EXP['f'](a.t.val)
+    EX.assume(e > 0)
+    # finite -> finite positive ; NaN -> NaN ; +inf -> +inf ; -inf -> 0
+    tag = z3.simplify(z3.If(a.t.tag == 3, 0, a.t.tag))
+    return Sym(X(tag, z3.If(a.t.tag == 0, e, z3.RealVal(0))), 'x4')
+
+
 def ssqrt(a):
     if not isinstance(a, Sym):
         with np.errstate(all='ignore'):
@@ -601,6 +631,9 @@ def ite(c, a, b):
         k = 'i8'
     if k == 'pyfloat':
         k = 'f8'
+    if k in FSORT and MODE['exact'] and not (sa and a.k in FSORT) and not (sb and b.k in FSORT):
+        A, B = xlift(a), xlift(b)
+        return Sym(X(z3.simplify(z3.If(ct, A.tag, B.tag)), z3.simplify(z3.If(ct, A.val, B.val))), 'x4')
     return Sym(z3.If(ct, lift(a, k), lift(b, k)), k)
 
 
@@ -646,7 +679,7 @@ def _obj(a):
     if isinstance(a, SymArray):
         return a._a
     if isinstance(a, Masked):
-        raise Unsupported('lazy masked view used as a full array')
+        return a.materialize()._a
     if isinstance(a, np.ndarray) and a.dtype != object:
         return to_obj(a)
     return a
@@ -688,13 +721,41 @@ class NZ:
 
 
 class Masked:
-    """lazy compressed view a[mask] for a symbolic boolean mask (elementwise work stays full size)"""
+    """lazy compressed view a[mask] for a symbolic boolean mask: elementwise work stays full size and a store back through
+    the same mask is an ite-merge; any use that needs the compressed array itself (its shape, as an index, combined with a
+    full array) materialises it by forking on the mask elements"""
     def __init__(self, full, mask):
         self.full = full; self.mask = mask
+        self._mat = None
 
-    @property
-    def shape(self):
-        raise Unsupported('shape of a data-dependent selection')
+    def materialize(self):
+        if self._mat is None or self._mat[0] is not EX.decided:
+            self._mat = (EX.decided, SymArray(self.full._a[concretize_mask(self.mask)], self.full.kind))
+        return self._mat[1]
+
+    shape = property(lambda s: s.materialize().shape)
+    size = property(lambda s: s.materialize().size)
+    ndim = property(lambda s: 1)
+    dtype = property(lambda s: s.full.dtype)
+
+    def __len__(self):
+        return len(self.materialize())
+
+    def __getitem__(self, k):
+        return self.materialize()[k]
+
+    def __iter__(self):
+        return iter(self.materialize())
+
+    def astype(self, dt, **kw):
+        return Masked(self.full.astype(dt), self.mask)
+
+    def __array_ufunc__(self, ufunc, method, *inputs, **kwargs):
+        return SymArray.__array_ufunc__(self.full, ufunc, method, *inputs, **kwargs)
+
+    def __array_function__(self, func, types, args, kwargs):
+        args = tuple(a.materialize() if isinstance(a, Masked) else a for a in args)
+        return SymArray.__array_function__(args[0] if isinstance(args[0], SymArray) else self.materialize(), func, types, args, kwargs)
 
 
 def concretize_mask(mask):
@@ -730,7 +791,8 @@ class SymArray:
     ndim = property(lambda s: s._a.ndim)
     size = property(lambda s: s._a.size)
     dtype = property(lambda s: np.dtype(dtype_of_kind(s.kind)))
-    strides = property(lambda s: s._a.strides)
+    # strides in bytes of the *logical* dtype (code multiplies/forwards them to as_strided)
+    strides = property(lambda s: tuple(st // s._a.itemsize * np.dtype(dtype_of_kind(s.kind)).itemsize for st in s._a.strides))
     data = property(lambda s: s)
     nbytes = property(lambda s: s._a.size * np.dtype(dtype_of_kind(s.kind)).itemsize)
     itemsize = property(lambda s: np.dtype(dtype_of_kind(s.kind)).itemsize)
@@ -778,6 +840,8 @@ class SymArray:
         ks = list(k) if isinstance(k, tuple) else [k]
         out = []
         for x in ks:
+            if isinstance(x, Masked):
+                x = x.materialize()
             if isinstance(x, SymArray):
                 if x.is_concrete():
                     x = x._a.astype(dtype_of_kind(x.kind))
@@ -791,8 +855,12 @@ class SymArray:
         return tuple(out)
 
     def __getitem__(self, k):
-        if isinstance(k, SymArray) and k.kind == 'b' and not k.is_concrete() and k.shape == self.shape and LAZY['on']:
-            return Masked(self, k)
+        if isinstance(k, SymArray) and k.kind == 'b' and not k.is_concrete() and k.shape == self.shape:
+            return Masked(self, k)       # lazy; materialises (forks) only when the compressed array itself is needed
+        if isinstance(k, tuple) and k and all(isinstance(x, NZ) for x in k) and len(k) == self.ndim \
+                and all(x.mask is k[0].mask for x in k) and [x.axis for x in k] == list(range(self.ndim)) and k[0].mask.shape == self.shape:
+            # a[np.where(mask)]: lazy compressed view (elementwise work stays full size, the scatter is an ite-merge)
+            return Masked(self, k[0].mask)
         ks = self._norm_key(k)
         if not any(isinstance(x, (Sym, SymArray)) for x in ks):
             kk = ks if isinstance(k, tuple) else ks[0]
@@ -897,9 +965,22 @@ class SymArray:
             # a[mask] = b[mask]
             if isinstance(k, SymArray) and k is v.mask or (isinstance(k, SymArray) and k.kind == 'b'):
                 return self._mask_store(k, v.full)
+            if isinstance(k, tuple) and k and all(isinstance(x, NZ) for x in k) and all(x.mask is v.mask for x in k) and len(k) == self.ndim:
+                return self._mask_store(v.mask, v.full)
             raise Unsupported('store of a masked view through a different key')
         if isinstance(k, SymArray) and k.kind == 'b' and not k.is_concrete():
             return self._mask_store(k, v)
+        if isinstance(k, tuple) and any(isinstance(x, NZ) for x in k) and not all(isinstance(x, NZ) for x in k) \
+                and all(isinstance(x, (NZ, int, np.integer, slice)) for x in k):
+            # a[nz0, nz1, 3] = v : selection on some axes, basic indexing on the others -> mask store on the basic-indexed view
+            nzs = [x for x in k if isinstance(x, NZ)]
+            if not all(x.mask is nzs[0].mask for x in nzs) or [x.axis for x in nzs] != list(range(nzs[0].mask.ndim)):
+                raise Unsupported('store through partial / permuted selection components')
+            view = self._a[tuple(slice(None) if isinstance(x, NZ) else x for x in k)]
+            if view.shape != nzs[0].mask.shape:
+                raise Unsupported('selection mask does not match the indexed view')
+            SymArray(view, self.kind)._mask_store(nzs[0].mask, v if not isinstance(v, Masked) else v.full)
+            return
         if isinstance(k, tuple) and k and all(isinstance(x, NZ) for x in k):
             if not all(x.mask is k[0].mask for x in k):
                 raise Unsupported('store through components of different selections')
@@ -1124,13 +1205,15 @@ def _wrap_ufunc_result(name, r, ins, inputs):
 
 def masked_apply(f, name, inputs):
     mask = None; ins = []
+    masks = [i.mask for i in inputs if isinstance(i, Masked)]
+    if any(m is not masks[0] for m in masks) or any(isinstance(i, (SymArray, np.ndarray)) and np.ndim(i) > 0 for i in inputs):
+        # not the pure "same selection" idiom: work on the materialised (compressed) arrays
+        mats = [i.materialize() if isinstance(i, Masked) else i for i in inputs]
+        r = _elt(f, *[_obj(m) for m in mats])
+        return _wrap_ufunc_result(name, r, None, mats)
     for i in inputs:
         if isinstance(i, Masked):
-            if mask is not None and i.mask is not mask:
-                raise Unsupported('two different masked views in one operation')
             mask = i.mask; ins.append(i.full._a)
-        elif isinstance(i, (SymArray, np.ndarray)) and np.ndim(i) > 0:
-            raise Unsupported('masked view combined with a full array')
         else:
             ins.append(i)
     r = _elt(f, *ins)
@@ -1177,8 +1260,8 @@ def _mk_arr_binop(op):
 
 _UF_NAME = {'add': 'add', 'sub': 'subtract', 'mul': 'multiply', 'truediv': 'true_divide', 'and': 'bitwise_and',
             'or': 'bitwise_or', 'xor': 'bitwise_xor', 'lt': 'less', 'le': 'less_equal', 'gt': 'greater', 'ge': 'greater_equal',
-            'eq': 'equal', 'ne': 'not_equal', 'floordiv': 'floor_divide', 'mod': 'remainder'}
-for _name in ('add', 'sub', 'mul', 'truediv', 'floordiv', 'mod', 'and', 'or', 'xor') + CMP:
+            'eq': 'equal', 'ne': 'not_equal', 'floordiv': 'floor_divide', 'mod': 'remainder', 'lshift': 'left_shift', 'rshift': 'right_shift'}
+for _name in ('add', 'sub', 'mul', 'truediv', 'floordiv', 'mod', 'and', 'or', 'xor', 'lshift', 'rshift') + CMP:
     _f, _rf = _mk_arr_binop(_name)
     setattr(SymArray, '__%s__' % _name, _f)
     setattr(Masked, '__%s__' % _name, _f)
@@ -1208,7 +1291,7 @@ def _logical(op):
     return f
 
 
-UFUNCS = {'rint': srint, 'floor': sfloor, 'ceil': sceil, 'sqrt': ssqrt,
+UFUNCS = {'rint': srint, 'floor': sfloor, 'ceil': sceil, 'sqrt': ssqrt, 'exp': sexp,
           'add': lambda a, b: binop('add', a, b), 'subtract': lambda a, b: binop('sub', a, b),
           'multiply': lambda a, b: binop('mul', a, b), 'true_divide': lambda a, b: binop('truediv', a, b),
           'divide': lambda a, b: binop('truediv', a, b),
@@ -1370,6 +1453,12 @@ def f_argext(gt, nan_aware=False):
 
 
 def f_where(cond, x=None, y=None):
+    if any(isinstance(a, Masked) for a in (cond, x, y)):
+        ms = [a.mask for a in (cond, x, y) if isinstance(a, Masked)]
+        if not all(m is ms[0] for m in ms):
+            raise Unsupported('np.where over different masked views')
+        full = f_where(*[(a.full if isinstance(a, Masked) else a) for a in (cond, x, y)])
+        return Masked(full, ms[0])
     if x is None:
         cond = as_symarray(cond)
         if cond.kind != 'b':
@@ -1392,7 +1481,7 @@ def as_symarray(a):
     if isinstance(a, SymArray):
         return a
     if isinstance(a, Masked):
-        raise Unsupported('masked view used as a full array')
+        return a.materialize()
     if isinstance(a, np.ndarray):
         if a.dtype == object:
             return SymArray(a, result_kind(a))
@@ -1610,7 +1699,7 @@ FUNCS = {'amax': f_max, 'max': f_max, 'amin': f_min, 'min': f_min, 'nanmin': _na
          'argmin': f_argext(False), 'argmax': f_argext(True), 'nanargmin': f_argext(False, True), 'nanargmax': f_argext(True, True),
          'where': f_where, 'nonzero': lambda a: f_where(a), 'clip': f_clip, 'sort': f_sort, 'argsort': f_argsort,
          'median': lambda a, axis=None, **k: f_median(a, axis, False), 'nanmedian': lambda a, axis=None, **k: f_median(a, axis, True),
-         'cumsum': f_cumsum, 'copy': lambda a, **k: a.copy(), 'full_like': f_full_like,
+         'cumsum': f_cumsum, 'nancumsum': lambda a, axis=None, **k: f_cumsum(SymArray(_elt(lambda e: ite(isnan(e), cast(0, as_symarray(a).kind), e), as_symarray(a)._a), as_symarray(a).kind), axis=axis, **k), 'copy': lambda a, **k: a.copy(), 'full_like': f_full_like,
          'zeros_like': lambda a, dtype=None, **k: f_full_like(a, 0, dtype), 'ones_like': lambda a, dtype=None, **k: f_full_like(a, 1, dtype),
          'empty_like': lambda a, dtype=None, **k: f_full_like(a, 0, dtype),
          'nan_to_num': f_nan_to_num, 'isin': f_isin, 'count_nonzero': f_count_nonzero, 'array_equal': f_array_equal, 'pad': f_pad,
@@ -1664,7 +1753,31 @@ class NPProxy:
     lib = _Lib()
 
     def __getattr__(self, n):
-        return getattr(np, n)
+        f = getattr(np, n)
+        if n in ('swapaxes', 'transpose', 'moveaxis', 'sum', 'reshape', 'ravel', 'squeeze', 'flip', 'amin', 'amax', 'min', 'max', 'mean', 'median',
+                 'nanmedian', 'nansum', 'sort', 'argsort', 'any', 'all', 'cumsum', 'isnan', 'abs'):
+            def w(a, *args, **kw):
+                if isinstance(a, (list, tuple)) and _contains_sym(a):
+                    a = as_symarray(a)
+                return f(a, *args, **kw)
+            return w
+        return f
+
+    class _RC:
+        def __init__(self, axis):
+            self.axis = axis
+
+        def __getitem__(self, items):
+            items = items if isinstance(items, tuple) else (items,)
+            if any(isinstance(i, (SymArray, Sym)) for i in items):
+                parts = [as_symarray(i) if not isinstance(i, SymArray) else i for i in items]
+                if self.axis == -1:
+                    parts = [p if p.ndim >= 2 else SymArray(p._a.reshape(-1, 1), p.kind) for p in parts]
+                return _join_fn(np.concatenate)(parts, axis=self.axis)
+            return (np.r_ if self.axis == 0 else np.c_)[items]
+
+    r_ = _RC(0)
+    c_ = _RC(-1)
 
     @staticmethod
     def _mk(a):
@@ -1760,7 +1873,7 @@ class NPProxy:
                     return f_where(np.array(c, dtype=object).reshape(()), *a)
                 return ite(c, a[0], a[1])
             raise Unsupported('np.where(scalar)')
-        if isinstance(c, SymArray) or any(isinstance(x, (SymArray, Sym)) for x in a):
+        if isinstance(c, (SymArray, Masked)) or any(isinstance(x, (SymArray, Sym, Masked)) for x in a):
             return f_where(c, *a)
         return np.where(c, *a)
 
